@@ -25,9 +25,6 @@ trait Key: Clone + Eq + Hash {
     fn dec(&self) -> u64;
 }
 
-/// plain u64 (hash backend)
-#[derive(Clone, PartialEq, Eq, Hash)]
-struct Plain;
 
 impl Key for u64 {
     fn enc(n: u64) -> u64 {
@@ -39,8 +36,6 @@ impl Key for u64 {
 }
 
 /// u64 spread over several RoaringTreemap partitions (high 32 bits differ) -- roaring backend
-#[derive(Clone, PartialEq, Eq, Hash, Debug)]
-struct Spread(u64);
 
 fn spread(n: u64) -> u64 {
     ((n % 3) << 33) | n
@@ -244,9 +239,10 @@ macro_rules! map_cmp_eq {
     (true, $a:expr, $b:expr) => {
         Some(($a.0.partial_cmp(&$b.0), $a.0 == $b.0))
     };
-    (false, $a:expr, $b:expr) => {
+    (false, $a:expr, $b:expr) => {{
+        let _ = (&$a, &$b);
         None
-    };
+    }};
 }
 
 map_backend!(u64, HashSet<u64>, <u64 as Key>::enc, |x: u64| x.dec(), true);
